@@ -9,6 +9,8 @@ surviving instruction other than by merging the instructions of one matched wind
 from pyvc.runner import Contract
 from pyvc.sym import SymInt, SymFloat, land, lor, lnot, is_sym
 from contracts.vm import CT, NUMERIC, mkcell, new_cpu, run_instrs, stack_after, same, Trapped, TrapCode
+from pyvc.sym import ite
+from qvm.cell import CellValue
 from contracts.c_expr import machine_outcome
 from qbee.qvm_codegen import QvmCode, QvmInstr, Op
 
@@ -180,6 +182,259 @@ def marker_shapes():
     return sorted(out)
 
 
+
+# ------------------------------------------------------------------ the remaining rules, semantically
+#
+# read+store elimination, jump-after-jump, push%+jz and instruction-after-halt were only under the marker contract.
+# Each now has (a) a semantic lemma over the real _exec_* functions and (b) a frame obligation on optimize(): over one
+# representative instruction (several where operands, scope or type matter) of EVERY canonical op, a two-instruction
+# window is rewritten only if it is one of the windows a lemma covers.  The table of permitted windows below is
+# written from the rules' comments (the specification side), not derived from the conditions in optimize().
+
+def _mem_cpu(h, scope, t, unset):
+    from contracts.c_memory import Seg
+    from qvm.cpu import CallFrame, MemorySegment
+    var = h.int('var', 0, 1 << 16)
+    S = Seg(h, 'seg', cls=CallFrame if scope == 'l' else MemorySegment, other_type=t, unset=None)
+    tcell = None if unset else mkcell(h, t, 'cur')
+    S.special.append((var, tcell))
+    h.require(var < S.size)
+    cpu = new_cpu(h, [])
+    cpu.cur_frame = S.seg if scope == 'l' else None
+    cpu.globals_segment = S.seg if scope == 'g' else None
+    return cpu, S, var, tcell
+
+
+def body_read_store(h, scope, t, unset):
+    """read<scope><t> x ; store<scope> x  is removed: running the pair must leave the operand stack as found and the
+    variable observably unchanged (an unset cell may be materialised with the default it reads as anyway)"""
+    from contracts.c_memory import default_of
+    tc = {CT.INTEGER: '%', CT.LONG: '&', CT.SINGLE: '!', CT.DOUBLE: '#', CT.STRING: '$'}[t]
+    code = QvmCode()
+    x = 'x'
+    code._instrs = [QvmInstr(f'read{scope}{tc}', x), QvmInstr(f'store{scope}', x)]
+    out = h.call(code.optimize)
+    h.prove('optimize.no_exception', out.returned, detail=repr(out))
+    h.prove('pair_removed_or_kept_whole', len(code._instrs) in (0, 2), detail=repr(code._instrs))
+    cpu, S, var, tcell = _mem_cpu(h, scope, t, unset)
+    rd = getattr(cpu, f'_exec_read{scope}_{t.name.lower()}')
+    st = getattr(cpu, f'_exec_store{scope}')
+    o1 = h.call(rd, var)
+    h.prove('read.no_exception', o1.returned, detail=repr(o1))
+    if not o1.returned:
+        return
+    o2 = h.call(st, var)
+    h.prove('store.no_exception', o2.returned, detail=repr(o2))
+    if not o2.returned:
+        return
+    stack_after(h, cpu, 0)
+    want = default_of(t) if unset else tcell.value
+    S.prove_only_written(h, 'only_the_variable_is_written', [var])
+    c = S.cell(h, var)
+    h.prove('variable_reads_as_before.type', c is not None and c.type == t)
+    h.prove('variable_reads_as_before.value', c is not None and same(c.value, want))
+
+
+def body_push_jz(h, before, small=None):
+    """push% c ; jz L  becomes  jmp L  (c = 0) or nothing: control and stack as the original pair leaves them"""
+    c = operand(h, CT.INTEGER, 'c', small)
+    target = h.int('target', 0, 2 ** 31 - 1)
+    pre = [QvmInstr('push$', '"pad"')] * before
+    code = QvmCode()
+    code._instrs = list(pre) + [QvmInstr('push%', c), QvmInstr('jz', target)]
+    out = h.call(code.optimize)
+    h.prove('optimize.no_exception', out.returned, detail=repr(out))
+    if not out.returned:
+        return
+    # the specification of the pair, stated once and demanded of both lists: control is at L iff c = 0, otherwise at
+    # the (arbitrary) fall-through address; the operand stack is as found
+    for tag, instrs in (('original', list(pre) + [QvmInstr('push%', c), QvmInstr('jz', target)]),
+                        ('optimised', code._instrs)):
+        cpu = new_cpu(h, [], name='stk_' + tag)
+        pc0 = cpu.pc
+        bad = run_instrs(h, cpu, instrs, [])
+        if bad is not None:
+            h.prove(tag + '.no_exception_on_the_machine', False, detail=repr(bad))
+            return
+        stack_after(h, cpu, before, tag=tag + '.stack')
+        h.prove(tag + '.jumps_iff_zero', same(cpu.pc, ite(c == 0, target, pc0)) if is_sym(c) else
+                same(cpu.pc, target if c == 0 else pc0), detail=' '.join(i.op.name for i in instrs))
+
+
+def body_no_fall_through(h, op):
+    """jmp / ijmp / ret / retv / halt never continue with the instruction that follows them (so that instruction,
+    having no label, is unreachable and may be deleted): control is at an address that does not depend on the
+    fall-through address, the machine is halted, or an error is raised"""
+    from qvm.cpu import CallFrame
+    target = h.int('target', 0, 2 ** 31 - 1)
+    if op == 'jmp':
+        cpu = new_cpu(h, [])
+        args = (target,)
+    elif op == 'ijmp':
+        cpu = new_cpu(h, [lcell_long(target)])
+        args = ()
+    elif op in ('ret', 'retv'):
+        prev = object.__new__(CallFrame)
+        fr = object.__new__(CallFrame)
+        fr.prev_frame = prev
+        ops = [lcell_long(target)] + ([mkcell(h, CT.LONG, 'retval')] if op == 'retv' else [])
+        cpu = new_cpu(h, ops)
+        cpu.cur_frame = fr
+        cpu.error_handler_active = h.bool('in_handler')
+        args = ()
+    else:
+        cpu = new_cpu(h, [])
+        args = ()
+    out = h.call(getattr(cpu, '_exec_' + op), *args)
+    if out.raised(Trapped):
+        h.cover('raises_a_run_time_error')
+        return
+    h.prove('no_host_exception', out.returned, detail=repr(out))
+    if op == 'halt':
+        h.prove('machine_halted', cpu.halted is True)
+    else:
+        h.prove('control_does_not_depend_on_the_next_instruction', same(cpu.pc, target))
+
+
+def lcell_long(v):
+    c = object.__new__(CellValue)
+    c.type = CT.LONG
+    c.value = v
+    return c
+
+
+def representative_instrs():
+    """at least one instruction of every canonical op; several where type, scope or operand decide a rule"""
+    R = []
+    add = lambda *e: R.append(e)
+    for tcx in '%&!#':
+        add('push' + tcx, 7 if tcx in '%&' else 7.5)
+        add('push' + tcx, 0 if tcx in '%&' else 0.0)
+    add('push$', '"s"')
+    for a in '%&!#':
+        for b in '%&!#':
+            if a != b:
+                add('conv' + a + b)
+    for sc in 'lg':
+        for tcx in '%&!#$':
+            add('read' + sc + tcx, 'x')
+        add('read' + sc + '%', 'y')
+        add('store' + sc, 'x')
+        add('store' + sc, 'y')
+        add('readidx' + sc + '%', 'x', 1)
+        add('storeidx' + sc, 'x', 1)
+        add('pushref' + sc, 'x')
+    for nm in ('abs', 'add', 'and', 'asc', 'chr', 'cint', 'clng', 'cmp', 'div', 'dupl', 'eq', 'eqv', 'errget', 'errline',
+               'errraise', 'errres', 'errresn', 'exp', 'ge', 'gt', 'halt', 'idiv', 'ijmp', 'imp', 'int', 'lcase', 'le',
+               'lt', 'ltrim', 'mod', 'mul', 'ne', 'neg', 'nop', 'not', 'or', 'pop', 'ret', 'retv', 'rnd', 'rtrim',
+               'sdbl', 'sign', 'space', 'sub', 'storeref', 'strfind', 'strleft', 'strlen', 'strmid', 'strrep', 'strright',
+               'swap', 'swapprev', 'ucase', 'xor', 'refidx', '_empty_block'):
+        add(nm)
+    for tcx in '%&!#$':
+        add('deref' + tcx)
+    add('ntos%')
+    add('allocarr', 1, 2)
+    add('arridx', 1)
+    add('lbound', 1)
+    add('ubound', 1)
+    add('initarrg', 'x', 1, 2)
+    add('initarrl', 'x', 1, 2)
+    add('call', 'L')
+    add('jmp', 'L')
+    add('jmp', 'K')
+    add('jz', 'L')
+    add('errhand', 'L')
+    add('frame', 1, 2)
+    add('io', 'terminal', 'print')
+    add('_label', 'L')
+    add('_dbg_info_start', 'n')
+    add('_dbg_info_end', 'n')
+    return R
+
+
+def permitted_rewrite(x, y):
+    """the windows (x, y) a rule may rewrite, as the rules' comments state them, and what the rule leaves"""
+    num = '%&!#'
+    xo, yo = x[0], y[0]
+    if xo[:4] == 'push' and xo[4:] in tuple(num) and yo[:4] == 'conv' and len(yo) == 6 and yo[4] == xo[4]:
+        return 'push_conv'
+    if xo[:4] == 'read' and xo[4] in 'lg' and len(xo) == 6 and yo in ('storel', 'storeg') and yo[5] == xo[4] \
+            and x[1:] == y[1:]:
+        return 'read_store'
+    if xo[:4] == 'push' and xo[4:] in tuple(num) and yo in ('neg', 'not'):
+        return 'push_unary'
+    if xo in ('jmp', 'ijmp', 'ret', 'retv') and yo in ('jmp', 'ijmp', 'ret', 'retv'):
+        return 'jump_pair'
+    if xo == 'push%' and yo == 'jz':
+        return 'push_jz'
+    if xo == 'halt' and not yo.startswith('_'):
+        return 'after_halt'
+    return None
+
+
+def body_window_frame(h, k):
+    R = representative_instrs()
+    x = R[k]
+    covered = set()
+    for y in R:
+        if x[0] == 'push$' and y[0] in ('neg', 'not'):
+            # not a window of well-typed code (precondition of the pass: C03's typing contracts; the compiler rejects
+            # -"s" and NOT "s"): the rule's evaluator raises EvalError on it, which says nothing about compiled programs
+            continue
+        code = QvmCode()
+        a, b = QvmInstr(*x), QvmInstr(*y)
+        code._instrs = [a, b]
+        out = h.call(code.optimize)
+        if not out.returned:
+            h.prove('optimize.no_exception', False, detail=f'{x} {y}: {out!r}')
+            continue
+        after = code._instrs
+        unchanged = len(after) == 2 and after[0] is a and after[1] is b
+        rule = permitted_rewrite(x, y)
+        if rule is None:
+            h.prove('window_without_a_lemma_is_left_alone', unchanged, detail=f'{x} {y} -> {after}')
+            continue
+        covered.add(rule)
+        if rule == 'read_store':
+            h.prove('read_store.removed_whole', unchanged or len(after) == 0, detail=f'{x} {y} -> {after}')
+        elif rule == 'jump_pair':
+            h.prove('jump_pair.first_survives_alone', unchanged or (len(after) == 1 and after[0] is a),
+                    detail=f'{x} {y} -> {after}')
+        elif rule == 'after_halt':
+            h.prove('after_halt.halt_survives_alone', unchanged or (len(after) == 1 and after[0] is a),
+                    detail=f'{x} {y} -> {after}')
+        elif rule == 'push_jz':
+            ok = unchanged or len(after) == 0 or (len(after) == 1 and after[0].final == ('jmp',) + tuple(y[1:]))
+            h.prove('push_jz.jump_or_nothing', ok, detail=f'{x} {y} -> {after}')
+        else:
+            ok = unchanged or (len(after) == 1 and after[0].final[0][:4] == 'push')
+            h.prove(rule + '.single_push', ok, detail=f'{x} {y} -> {after}')
+    # three-instruction rule: only  push<t> a ; push<t> b ; <binary operator>  may become one push
+    binops = ('add', 'sub', 'mul', 'div', 'and', 'or', 'xor', 'eqv', 'imp', 'idiv', 'mod', 'exp')
+    if x[0][:4] == 'push' and x[0][4:] in ('%', '&', '!', '#'):
+        for y in R:
+            if not (y[0][:4] == 'push' and y[0][4:] in ('%', '&', '!', '#')):
+                continue
+            for z in R:
+                if permitted_rewrite(y, z) or permitted_rewrite(x, y):
+                    continue
+                code = QvmCode()
+                ins = [QvmInstr(*x), QvmInstr(*y), QvmInstr(*z)]
+                code._instrs = list(ins)
+                out = h.call(code.optimize)
+                if not out.returned:
+                    h.prove('optimize.no_exception', False, detail=f'{x} {y} {z}: {out!r}')
+                    continue
+                after = code._instrs
+                unchanged = len(after) == 3 and all(p is q for p, q in zip(after, ins))
+                if z[0] in binops and x[0] == y[0]:
+                    ok = unchanged or (len(after) == 1 and after[0].final[0][:4] == 'push')
+                    h.prove('push_push_binary.single_push', ok, detail=f'{ins} -> {after}')
+                else:
+                    h.prove('window_without_a_lemma_is_left_alone', unchanged, detail=f'{ins} -> {after}')
+    h.prove('every_canonical_op_is_represented',
+            {QvmInstr(*e).op for e in R} >= {o for o in Op}, detail=repr({o for o in Op} - {QvmInstr(*e).op for e in R}))
+
 SMALL = (-2, -1, 0, 1, 2)
 SMALL2 = [(None, None), (None, 0), (0, None), (0, 0), (1, 0), (2, -2), (-1, None), (None, 1)]
 
@@ -205,4 +460,16 @@ CONTRACTS = [
     Contract('opt.markers', ['C02', 'C06', 'C08', 'C11'], ['qbee.qvm_codegen:QvmCode.optimize'], body_markers,
              cases=[(s,) for s in marker_shapes()],
              trusted=['windows of every rule with a pseudo-instruction at every position (enumerated shapes)']),
+    Contract('opt.read_store', PROPS, ['qbee.qvm_codegen:QvmCode.optimize', 'qvm.cpu:QvmCpu.read_var', 'qvm.cpu:QvmCpu.write_var',
+                                       'qvm.cpu:QvmCpu._exec_storel', 'qvm.cpu:QvmCpu._exec_storeg'], body_read_store,
+             cases=[(sc, t, u) for sc in 'lg' for t in NUMERIC + [CT.STRING] for u in (False, True)]),
+    Contract('opt.push_jz', PROPS, ['qbee.qvm_codegen:QvmCode.optimize', 'qvm.cpu:QvmCpu._exec_jz', 'qvm.cpu:QvmCpu._exec_jmp'],
+             body_push_jz, cases=[(b, None) for b in (0, 1)] + [(0, k) for k in SMALL]),
+    Contract('opt.no_fall_through', PROPS, ['qvm.cpu:QvmCpu._exec_jmp', 'qvm.cpu:QvmCpu._exec_ijmp', 'qvm.cpu:QvmCpu._exec_ret',
+                                            'qvm.cpu:QvmCpu._exec_retv', 'qvm.cpu:QvmCpu._exec_halt'], body_no_fall_through,
+             cases=[(o,) for o in ('jmp', 'ijmp', 'ret', 'retv', 'halt')]),
+    Contract('opt.window_frame', ['C02', 'C01', 'C08'], ['qbee.qvm_codegen:QvmCode.optimize'], body_window_frame,
+             cases=[(k,) for k in range(len(representative_instrs()))],
+             trusted=['operands of the representative instructions are concrete (one or two values per op); the operand-'
+                      'dependent rules are proved for all operand values by opt.push_conv / push_unary / push_push_binary / push_jz']),
 ]
